@@ -14,9 +14,10 @@ Lemma all_states_closed :
   forallb (fun t => closed_b t all_states) machines = true.
 Proof. vm_compute. reflexivity. Qed.
 
-(* a state of the tables is either owned by a machine that accepts it, or one of the six dead ones *)
+(* every state of the tables is owned by a machine that accepts it (after the repair of the pool:
+   the six final states of cancelled rounds included) *)
 Lemma states_loadable_or_dead :
-  forallb (fun s => mem_str s dead_states ||
+  forallb (fun s => false ||
                     match machine_by_state s with
                     | Some t => copy_with_state_ok t s && negb (String.eqb s "") &&
                                 match table_by_name (ft_name t) with Some t' => true | None => false end
@@ -97,32 +98,30 @@ Proof.
   apply IH. eapply round_step_states; eassumption.
 Qed.
 
-(* full statement: every reachable round can be loaded back — REFUTED by a decline *)
+(* the history that used to end in an unloadable state (defect repaired: fix bd98172) *)
 Definition declined_history : list (Z * string * request) :=
   [ (0%Z, ev_sig_init,
      RList [ {| pe_name := 2; pe_name_len := 5; pe_pk := 3; pe_pk_len := 12; pe_dpk := 4; pe_dpk_len := 12 |};
              {| pe_name := 5; pe_name_len := 5; pe_pk := 6; pe_pk_len := 12; pe_dpk := 7; pe_dpk_len := 12 |} ]%N 2 0);
     (20%Z, ev_sig_decline, RPart 1 10) ].
 
-Theorem all_loadable_refuted :
-  exists tr, from_dump (run_round initial_dump tr) = LoadErr.
-Proof. exists declined_history. vm_compute. reflexivity. Qed.
+Example declined_round_is_loadable :
+  d_state (run_round initial_dump declined_history) = "state_sig_proposal_canceled_by_participant" /\
+  exists i, from_dump (run_round initial_dump declined_history) = LoadOk i.
+Proof. split; [vm_compute; reflexivity|]. eexists. vm_compute. reflexivity. Qed.
 
-(* what does hold: every reachable round is loadable unless it is in one of the six dead
-   states — exactly the entries of known_findings.jsonl for C19 *)
-Theorem all_loadable_partial tr :
-  let d := run_round initial_dump tr in
-  In (d_state d) dead_states \/ exists i, from_dump d = LoadOk i.
+(* every round reachable by any history can be loaded back *)
+Theorem all_loadable tr : exists i, from_dump (run_round initial_dump tr) = LoadOk i.
 Proof.
-  cbn zeta. set (d := run_round initial_dump tr).
+  set (d := run_round initial_dump tr).
   assert (Hin : In (d_state d) all_states).
   { apply run_round_states. vm_compute. tauto. }
   pose proof states_loadable_or_dead as Hl. rewrite forallb_forall in Hl. specialize (Hl _ Hin).
-  apply orb_true_iff in Hl as [Hd|Hl].
-  - left. apply mem_str_In. exact Hd.
-  - right. unfold from_dump. destruct (machine_by_state (d_state d)) as [t|]; [|discriminate].
-    apply andb_prop in Hl as [Hl _]. apply andb_prop in Hl as [Hc _]. rewrite Hc. eexists. reflexivity.
+  cbn [orb] in Hl.
+  unfold from_dump. destruct (machine_by_state (d_state d)) as [t|]; [|discriminate].
+  apply andb_prop in Hl as [Hl _]. apply andb_prop in Hl as [Hc _]. rewrite Hc. eexists. reflexivity.
 Qed.
+
 
 (* restoring does not change behaviour: an instance whose machine owns its current state
    answers every event exactly like the instance rebuilt from its dump *)
